@@ -360,6 +360,18 @@ static void history(int steps, int containers_only) {
             default: memmove(buf + at, buf + at + 1, n - at - 1); n--; break;
           }
         }
+        /* now and then an encoding nested just beyond the decoder's limit: refused, and every frame and item built so far released */
+        if (vh_randn(8) == 0 && (size_t)CBOR_MAX_STACK_SIZE + 8 < sizeof buf) {
+          static const unsigned char openers[] = {0x81, 0x9f, 0xc1, 0xa1, 0xd8};
+          size_t depth = (size_t)CBOR_MAX_STACK_SIZE + 1 + vh_randn(3);
+          n = 0;
+          for (size_t d = 0; d < depth && n + 3 < sizeof buf; d++) {
+            unsigned char o = openers[vh_randn(sizeof openers)];
+            buf[n++] = o;
+            if (o == 0xd8) buf[n++] = 0x20; /* tag with a one-byte number */
+          }
+          buf[n++] = 0x00;
+        }
         struct cbor_load_result r;
         op_begin();
         maybe_fault();
